@@ -182,7 +182,7 @@ def leanchecker(modules, timeout=3000):
     return p.returncode == 0, (p.stdout + p.stderr)[-2000:]
 
 
-def run_driver(lines, timeout=3000):
+def run_driver(lines, timeout=900):
     """Pipe protocol lines through the compiled Lean driver."""
     data = "".join(l + "\n" for l in lines)
     p = subprocess.run([DRIVER], input=data, capture_output=True, text=True,
@@ -366,6 +366,9 @@ def run_check(prop, tier="quick", seed=0, replay=None):
                         continue
                     if a != b:
                         disagreements.append({"case": c, "impl": a, "model": b})
+        except subprocess.TimeoutExpired:
+            print("TOOL-FAILURE: the model driver timed out")
+            return 2
         except Exception as err:
             broken.append("driver run failed: %r" % (err,))
     elif not driver_ok:
